@@ -155,6 +155,13 @@ def r6_consumption(ctx, steps=None, rule='R6a'):
                     for t in ctx.res.resolve_call(c):
                         if isinstance(t, FuncInfo) and not isinstance(t.node, ast.Lambda):
                             ps = [p for p in t.params if p not in ('self', 'cls')]
+                            # a callee reached through functools.partial(f, a1..ak): the first k parameters are taken
+                            try:
+                                pc = ctx.res.partial_of(c.func, rl.fi.module, rl.fi)
+                            except Exception:
+                                pc = None
+                            if pc is not None:
+                                ps = ps[len(pc.args) - 1:]
                             if idx[0] < len(ps):
                                 key = (t.qualname, ps[idx[0]])
                                 if key in seen_wrappers:
